@@ -21,7 +21,40 @@ CONT = ['blocked', 'downsample', 'decimate', 'discard', 'rms', 'iirfilter', 'der
 DIVIDED = ('downsample', 'decimate', 'rms')
 LFILTER = ('iirfilter', 'decimate')
 IIR = [(1, 100.0, 'lowpass', 'butter'), (2, 100.0, 'lowpass', 'butter'), (3, 200.0, 'highpass', 'butter'),
-       (4, 150.0, 'lowpass', 'bessel'), (2, 50.0, 'highpass', 'bessel')]
+       (4, 150.0, 'lowpass', 'bessel'), (2, 50.0, 'highpass', 'bessel'),
+       # hardening: every design argument at a non-default value (rp, rs, a band given as a list / tuple, integer Wn)
+       (3, 100, 'lowpass', 'cheby1', 1, None), (3, 100.0, 'highpass', 'ellip', 1.0, 40), (2, [50.0, 200.0], 'bandpass', 'butter'),
+       (2, (60, 180), 'bandstop', 'cheby2', None, 30.0)]
+TH_OVERRIDE = 0.3          # what current_th_cb returns in the 'thcb' variant of auto_th
+FS_REPS = {'int1000': 1000, 'np1000': np.float64(1000.0), '44100': 44100.0, '97656.25': 97656.25, '500': 500.0}
+REP_OPTIONS = {
+    'fsin': list(FS_REPS),                  # sampling rate of the stream (and of the fs arguments): other values / int / NumPy scalar
+    's0np': [1],                            # s0 of the annotated chunks as np.int64
+    'pnp': ['int64', 'int32'],              # integer stage parameters as NumPy integers, float ones as np.float64
+    'spell': ['kw'],                        # every argument by keyword
+    'layout': ['F', 'strided', 'copy', 'readonly'],
+    'nch': [1, 3],                          # channel count of 2-D streams (default 2)
+    'dtype': ['int16', 'uint16', 'int32', 'float32'],
+    'ath': ['fsnone', 'nfloat', 'cb', 'thcb'],      # auto_th: fs=None (taken from the data), n as float, auto_th_cb / current_th_cb given
+    'erate': ['stepfloat', 'npargs', 's0mode'],     # event_rate: block_step as float (its documented type), NumPy integers, s0_mode='center' spelled out
+}
+# Demands that FAIL on the unchanged library and wait for the integrator's decision (notes/C12.md, "hardening"):
+# generated only with VERIF_PENDING=1.
+import os
+PENDING = os.environ.get('VERIF_PENDING') == '1'
+
+
+def rep_of(c):
+    return c.get('rep') or {}
+
+
+def fs_of(c):
+    return FS_REPS.get(rep_of(c).get('fsin'), FS)
+
+
+def iir_of(c):
+    t = IIR[c['p2'] % len(IIR)]
+    return t if len(t) == 6 else t + (None, None)
 MODES = ['positive', 'negative', 'both']
 MATRIX = np.array([[1.0, -1.0], [0.25, 1.5]])
 META = {'m': 1}
@@ -37,25 +70,55 @@ def arr_kinds(stage):
     return ['1d', '2d', 'pd1', 'pd2']
 
 
+def nch_of(c):
+    return rep_of(c).get('nch', 2) if c['kind'] != 'mc_reference' else 2
+
+
+def dtype_of(c):
+    dt = rep_of(c).get('dtype') or c.get('dtype')
+    if dt in ('int16', 'uint16', 'int32') and c['kind'] in ('rms', 'derivative', 'auto_th'):
+        # outputs of these stages are identified by value; |x| / differences of integers coincide too often
+        return 'float32'
+    if dt in ('int16', 'uint16') and c['N'] * nch_of(c) > 4000:
+        return 'int32'
+    return dt
+
+
 def signal_of(c):
     r = np.random.RandomState(c.get('seed', 0) % (2 ** 31))
     n = c['N']
-    shape = n if c['arr'] in ('1d', 'pd1') else (2, n)
-    dt = c.get('dtype')
-    if dt in ('int16', 'int32'):
+    shape = n if c['arr'] in ('1d', 'pd1') else (nch_of(c), n)
+    dt = dtype_of(c)
+    if dt in ('int16', 'int32', 'uint16'):
         # acquisition hardware delivers integer counts: the defining whole-signal computation is the same formula
         # applied to the same integers (small enough that nothing overflows)
         # (distinct values, so that a sample is still identified by its value)
         size = int(np.prod(shape))
-        return (r.permutation(4 * size)[:size] - 2 * size).reshape(shape).astype(dt)
+        return (r.permutation(4 * size)[:size] - (0 if dt == 'uint16' else 2 * size)).reshape(shape).astype(dt)
     x = r.uniform(-1, 1, shape)
     return x.astype(dt) if dt else x
+
+
+def lay_out(c, x):
+    """the same values in another memory layout"""
+    lay = rep_of(c).get('layout')
+    if lay == 'F':
+        return np.asfortranarray(x)
+    if lay == 'strided':                       # every other sample of an interleaved buffer
+        buf = np.zeros(x.shape[:-1] + (2 * x.shape[-1],), dtype=x.dtype)
+        buf[..., ::2] = x
+        return buf[..., ::2]
+    if lay == 'readonly':
+        x = x.copy()
+        x.setflags(write=False)
+        return x
+    return x
 
 
 def in_channel(c):
     if c['arr'] == 'pd1':
         return 'c0' if c.get('lab', 1) else None      # lab=0: the default (no label) of a 1-D PipelineData
-    return ['a', 'b']
+    return ['a', 'b', 'c'][:nch_of(c)]
 
 
 def reference(c, x):
@@ -65,8 +128,8 @@ def reference(c, x):
     if st in ('blocked', 'downsample', 'discard'):
         return x
     if st == 'iirfilter':
-        order, wn, btype, ftype = IIR[c['p2'] % len(IIR)]
-        b, a = signal.iirfilter(order, wn, None, None, btype, ftype=ftype, fs=FS)
+        order, wn, btype, ftype, rp, rs = iir_of(c)
+        b, a = signal.iirfilter(order, wn, rp, rs, btype, ftype=ftype, fs=fs_of(c))
         zi = signal.lfilter_zi(b, a) * x[..., :1]
         return signal.lfilter(b, a, x, zi=zi, axis=-1)[0]
     if st == 'decimate':
@@ -82,7 +145,7 @@ def reference(c, x):
         return np.mean(d ** 2, axis=-1) ** 0.5
     if st == 'derivative':
         ini = np.full(list(x.shape[:-1]) + [1], INIT)
-        return np.diff(np.concatenate((ini, x), axis=-1)) * FS
+        return np.diff(np.concatenate((ini, x), axis=-1)) * fs_of(c)
     if st == 'transform':
         return x * 2 + 1
     if st == 'mc_reference':
@@ -94,6 +157,8 @@ def reference(c, x):
         with warnings.catch_warnings():
             warnings.simplefilter('ignore')
             th = x[..., :bs].std() * 2
+        if rep_of(c).get('ath') == 'thcb':
+            th = TH_OVERRIDE                     # current_th_cb overrides the automatic threshold
         mode = MODES[c['p2'] % 3]
         if mode == 'positive':
             return x >= th
@@ -111,12 +176,15 @@ class Lookup:
         self.exact = exact
         self.scale = 1.0 + (float(np.max(np.abs(self.ref))) if self.ref.size else 0.0)
         if exact:
-            cols = self.ref.reshape(-1, self.ref.shape[-1]).T if self.ref.ndim > 1 else self.ref.reshape(-1, 1)
+            if self.ref.shape[-1] == 0:
+                cols = []
+            else:
+                cols = self.ref.reshape(-1, self.ref.shape[-1]).T if self.ref.ndim > 1 else self.ref.reshape(-1, 1)
             self.table = {}
             for k, col in enumerate(cols):
                 self.table.setdefault(tuple(col.tolist()), k)
 
-    def find(self, col):
+    def find(self, col, hint=None):
         col = np.asarray(col, dtype=float).reshape(-1)
         if self.exact:
             return self.table.get(tuple(col.tolist()))
@@ -125,37 +193,62 @@ class Lookup:
         r = self.ref.reshape(-1, self.ref.shape[-1]) if self.ref.ndim > 1 else self.ref.reshape(1, -1)
         if r.shape[0] != col.shape[0]:
             return None
+        if hint is not None and 0 <= hint < r.shape[1] and np.max(np.abs(r[:, hint] - col)) <= TOL * self.scale:
+            return hint          # (long streams) the expected position matches: no need to scan the whole reference
         err = np.max(np.abs(r - col[:, None]), axis=0)
         j = int(np.argmin(err))
         return j if err[j] <= TOL * self.scale else None
 
 
-def make_stage(c, target):
+def make_stage(c, target, cb_log=None):
     from psiaudio import pipeline as P
     st, p1, p2 = c['kind'], c['p1'], c['p2']
+    rep = rep_of(c)
+    fs = fs_of(c)
+    kw = rep.get('spell') == 'kw'
+    npint = np.dtype(rep['pnp']).type if rep.get('pnp') else int
+    npflt = np.float64 if rep.get('pnp') else float
     if st == 'blocked':
-        return P.blocked(p1, target)
+        return P.blocked(block_size=npint(p1), target=target) if kw else P.blocked(npint(p1), target)
     if st == 'downsample':
-        return P.downsample(p1, target)
+        return P.downsample(q=npint(p1), target=target) if kw else P.downsample(npint(p1), target)
     if st == 'decimate':
-        return P.decimate(p1, target)
+        return P.decimate(q=npint(p1), target=target) if kw else P.decimate(npint(p1), target)
     if st == 'discard':
-        return P.discard(p1, target)
+        return P.discard(discard_samples=npint(p1), cb=target) if kw else P.discard(npint(p1), target)
     if st == 'rms':
-        return P.rms(FS, p1 / FS, target)
+        return P.rms(fs=fs, duration=npflt(p1 / fs), target=target) if kw else P.rms(fs, npflt(p1 / fs), target)
     if st == 'iirfilter':
-        order, wn, btype, ftype = IIR[p2 % len(IIR)]
-        return P.iirfilter(FS, order, wn, None, None, btype, ftype, target)
+        order, wn, btype, ftype, rp, rs = iir_of(c)
+        if kw:
+            return P.iirfilter(fs=fs, N=npint(order), Wn=wn, rp=rp, rs=rs, btype=btype, ftype=ftype, target=target)
+        return P.iirfilter(fs, npint(order), wn, rp, rs, btype, ftype, target)
     if st == 'derivative':
-        return P.derivative(INIT, target)
+        return P.derivative(initial_state=npflt(INIT), target=target) if kw else P.derivative(npflt(INIT), target)
     if st == 'transform':
-        return P.transform(lambda d: d * 2 + 1, target)
+        f = lambda d: d * 2 + 1
+        return P.transform(function=f, target=target) if kw else P.transform(f, target)
     if st == 'mc_reference':
-        return P.mc_reference(MATRIX, target)
+        return P.mc_reference(matrix=MATRIX, target=target) if kw else P.mc_reference(MATRIX, target)
     if st == 'auto_th':
-        return P.auto_th(2, p1 / FS, target, fs=FS, mode=MODES[p2 % 3])
+        ath = rep.get('ath')
+        n = 2.0 if ath == 'nfloat' else npint(2)
+        fsarg = None if (ath == 'fsnone' and c['arr'].startswith('pd')) else fs
+        extra = {}
+        if ath == 'cb':
+            extra['auto_th_cb'] = (cb_log.append if cb_log is not None else (lambda th: None))
+        if ath == 'thcb':
+            extra['current_th_cb'] = lambda: TH_OVERRIDE
+        if kw:
+            return P.auto_th(n=n, baseline=npflt(p1 / fs), target=target, fs=fsarg, mode=MODES[p2 % 3], **extra)
+        return P.auto_th(n, npflt(p1 / fs), target, fsarg, MODES[p2 % 3], **extra)
     if st == 'event_rate':
-        return P.event_rate(p1, p2, target)
+        er = rep.get('erate')
+        size, step = (np.int64(p1), np.int64(p2)) if er == 'npargs' else (p1, float(p2) if er == 'stepfloat' else p2)
+        extra = {'s0_mode': 'center'} if er == 's0mode' else {}
+        if kw:
+            return P.event_rate(block_size=size, block_step=step, target=target, **extra)
+        return P.event_rate(size, step, target, **extra)
     raise ValueError(st)
 
 
@@ -200,14 +293,24 @@ class C12(Spec):
         'derivative and event_rate need annotated input (they read fs off the data); auto_th needs an explicit fs; '
         'mc_reference needs 2-D data; iirfilter needs a non-empty first chunk; block sizes / factors are >= 1',
         'rms: annotated input starts at a multiple of the block length (s0/n is a true division in the code)',
-        'event_rate: every event lies inside the span of the Events object that carries it (listed in any order), one sampling rate; the Ellipsis reset '
-        'signal of blocked/discard is outside the property',
+        'event_rate: every event lies inside the span of the Events object that carries it (listed in any order), one sampling rate',
+        'the Ellipsis restart signal of blocked/discard must be forwarded to the target; the stream that follows is a new input stream '
+        '(the model starts a fresh stage; the Lean step functions do not contain the Ellipsis branch)',
+        'not demanded (fail on the unchanged library, reported in notes/C12.md, generated with VERIF_PENDING=1 only): the caller may overwrite '
+        'a chunk after send() (blocked, downsample, rms, auto_th keep references into it); auto_th adding its threshold to the metadata of the chunk it was sent',
     ]
     RULE = ('per stage x array kind (plain 1-D, plain 2-D, annotated 1-D, annotated 2-D): every composition of short '
             'streams (exhaustive), random chunkings with parts smaller than q / block size incl. empty chunks, chunk '
             'edges at every offset -2..+2 around each multiple of the stage parameter, and a few non-contiguous '
             '(malformed) streams. Non-trivial = at least two chunks and at least one emitted block; distinct = '
-            'distinct case dict.')
+            'distinct case dict. Hardening: stream rate 500..97656.25 Hz / int / NumPy scalar, s0 as np.int64 and beyond 2^31 / 2^40, stage '
+            'parameters as NumPy scalars, all-keyword construction, Fortran / strided / copied / read-only chunks, 1 and 3 channels, '
+            'int16 / uint16 / int32 / float32 samples, auto_th with fs=None / float n / auto_th_cb / current_th_cb, iirfilter designs with rp, rs and '
+            'band edges as list / tuple, event_rate with float block_step / NumPy arguments / s0_mode spelled out; streams without any sample; '
+            'every chunk is compared with a snapshot after send(); the consumer overwrites the blocks it received; two stages (other stage, one '
+            'parameter changed, identical twin) fed the same chunk objects alternately; Ellipsis restarts of blocked / discard followed by new '
+            'streams; per run 5 continuous streams of 2^16..2^17 samples (parameters up to 65537, 0/1-sample next to 50000-sample chunks, '
+            's0 beyond 2^31) and 3 event_rate lives with thousands of events.')
     exhaustive_note = {
         'quick': 'every composition of N<=6 samples for each of the 10 continuous stages x array kinds (one parameter set), '
                  'event_rate: every composition of a 9-sample span',
@@ -358,9 +461,181 @@ class C12(Spec):
                 q[rng.randrange(1, len(parts))] = rng.choice([2, 3])
                 c['fsq'] = q
             yield c
+        yield from self.hardening_cases(rng, tier)
+
+    # ------------------------------------------------------------------ hardening (HARDENING.md items 1-7)
+    @staticmethod
+    def _rand_rep(rng, stage, arr, p=0.3):
+        rep = {}
+        for k, opts in REP_OPTIONS.items():
+            if (k == 'ath' and stage != 'auto_th') or k == 'erate':
+                continue
+            if k == 'nch' and (arr not in ('2d', 'pd2') or stage == 'mc_reference'):
+                continue
+            if k == 's0np' and not arr.startswith('pd'):
+                continue
+            if rng.random() < p:
+                rep[k] = rng.choice(opts)
+        return rep
+
+    def _rand_case(self, rng, stage, arr, nmax=60, rep=None, **extra):
+        p1, p2 = self._params(stage, rng)
+        n = rng.randint(1, nmax)
+        parts, left = [], n
+        while left > 0:
+            k = min(left, rng.choice([0, 1, 1, 2, 2, 3, 4, 5, 7, 11, 19]))
+            parts.append(k)
+            left -= k
+        if rng.random() < 0.2:
+            parts.insert(rng.randint(1, len(parts)), 0)
+        c = self._mk(stage, arr, n, parts, p1, p2, rng.choice([0, 0, 6, 12, 35, 2 ** 31 - 3, 2 ** 40]), rng.randrange(10 ** 6))
+        if rep:
+            c['rep'] = rep
+        c.update(extra)
+        return c
+
+    @staticmethod
+    def _mixed_chunks(rng, n, unit):
+        """chunk sizes mixing tiny (0, 1, around the stage parameter) and huge ones"""
+        parts, left, tiny = [], n, 0
+        while left > 0:
+            k = rng.choice([0, 1, 2, 3, unit - 1, unit, unit + 1, 4096, 30000, rng.randint(1, 50000)])
+            if k < 100:
+                tiny += 1
+                if tiny > 60:
+                    k = rng.randint(20000, 60000)
+            k = max(0, min(k, left))
+            parts.append(k)
+            left -= k
+        return parts
+
+    def hardening_cases(self, rng, tier):
+        quick = tier == 'quick'
+        # 1/2. the same stream / parameters in other representations, keyword spelling, options at non-default values
+        for stage in CONT:
+            kinds = arr_kinds(stage)
+            for i in range(60 if quick else 500):
+                arr = kinds[i % len(kinds)]
+                yield self._rand_case(rng, stage, arr, rep=self._rand_rep(rng, stage, arr))
+        for key, opts in REP_OPTIONS.items():                 # every option a few times on its own
+            if key == 'erate':
+                continue
+            for o in opts:
+                for _ in range(3):
+                    stage = 'auto_th' if key == 'ath' else rng.choice([st for st in CONT if st != 'mc_reference'])
+                    arr = rng.choice(['2d', 'pd2'] if key == 'nch' else ['pd1', 'pd2'] if key == 's0np' else arr_kinds(stage))
+                    yield self._rand_case(rng, stage, arr, rep={key: o})
+        # 4. streams without a single sample
+        for stage in CONT:
+            if stage == 'iirfilter':
+                continue                                      # needs a non-empty first chunk (domain)
+            for arr in arr_kinds(stage):
+                p1, p2 = self._params(stage, rng)
+                for parts in ([0], [0, 0]):
+                    yield self._mk(stage, arr, 0, parts, p1, p2, 6, 0)
+        # 6. the consumer overwrites every block it received (values and annotations) before the next chunk is sent;
+        #    (all cases) every chunk must come back from send() as it was
+        for stage in CONT:
+            kinds = arr_kinds(stage)
+            for i in range(24 if quick else 200):
+                arr = kinds[i % len(kinds)]
+                yield self._rand_case(rng, stage, arr, rep=self._rand_rep(rng, stage, arr, 0.1), scrout=1)
+                if PENDING:
+                    yield self._rand_case(rng, stage, arr, scrin=1)
+        # 5/7. two stages (another stage, or the same stage with one parameter changed) receive the same chunk objects
+        for _ in range(300 if quick else 3000):
+            sa = rng.choice(CONT)
+            arr = rng.choice(arr_kinds(sa))
+            if rng.random() < 0.5:
+                sb = sa
+            else:
+                sb = rng.choice([st for st in CONT if arr in arr_kinds(st)])
+            if arr.startswith('pd') and 'auto_th' in (sa, sb) and not PENDING:
+                continue          # auto_th writes into the metadata of the chunk it is sent: see notes (reported, not demanded)
+            a = self._rand_case(rng, sa, arr, 40)
+            a.pop('dtype', None)
+            rep = {k: v for k, v in self._rand_rep(rng, sa, arr, 0.15).items() if k in ('fsin', 's0np', 'layout', 'nch')}
+            if 'mc_reference' in (sa, sb):
+                rep.pop('nch', None)
+            if rng.random() < 0.3:
+                rep['dtype'] = 'float32'
+            b = dict(a)
+            b['kind'] = sb
+            while True:
+                b['p1'], b['p2'] = self._params(sb, rng)
+                if sb != sa or (b['p1'], b['p2']) != (a['p1'], a['p2']) or sa in ('derivative', 'transform', 'mc_reference') \
+                        or rng.random() < 0.3:          # (sometimes an identical twin)
+                    break
+            if arr.startswith('pd'):
+                unit = (a['p1'] if sa == 'rms' else 1) * (b['p1'] if sb == 'rms' else 1)
+                a['s0'] = b['s0'] = (a['s0'] // unit) * unit
+            if rep:
+                a['rep'], b['rep'] = rep, dict(rep)
+            if sb == 'auto_th' and rng.random() < 0.5:
+                b['rep'] = dict(b.get('rep') or {}, ath=rng.choice(REP_OPTIONS['ath']))
+            yield {'kind': 'dual', 'a': a, 'b': b}
+        # 5. restart signal (Ellipsis) of blocked / discard: forwarded, then a new stream is processed from scratch
+        for stage in ('blocked', 'discard'):
+            for arr in arr_kinds(stage):
+                for _ in range(15 if quick else 150):
+                    c = self._rand_case(rng, stage, arr, 30)
+                    c['segs'] = []
+                    for _ in range(rng.randint(1, 2)):
+                        d = self._rand_case(rng, stage, arr, 30)
+                        c['segs'].append({k: d[k] for k in ('N', 'chunks', 's0', 'seed')})
+                    c.pop('dtype', None)
+                    yield c
+        # 3. scale: 2^16 .. 2^17 samples (2^18 thorough), parameters in the thousands, tiny chunks next to huge ones,
+        #    first s0 beyond 2^31
+        big_params = {'blocked': [1, 3, 4096, 10007], 'downsample': [2, 3, 16], 'decimate': [2, 3, 8], 'discard': [0, 50000, 65537],
+                      'rms': [3, 1024], 'auto_th': [9, 10000]}
+        stages = rng.sample(CONT, 5) if quick else CONT + CONT
+        for stage in stages:
+            arr = rng.choice(arr_kinds(stage))
+            n = rng.choice([2 ** 16, 2 ** 16 + 1, 2 ** 17 - 1] + ([] if quick else [2 ** 18]))
+            p1, p2 = self._params(stage, rng)
+            if stage in big_params:
+                p1 = rng.choice(big_params[stage])
+            c = self._mk(stage, arr, n, self._mixed_chunks(rng, n, max(p1, 2)), p1, p2,
+                         rng.choice([2 ** 31 - 5, 2 ** 31 + 7, 2 ** 40]), rng.randrange(10 ** 6))
+            if c['chunks'][0] == 0 and stage == 'iirfilter':
+                c['chunks'][0] = 1
+                c['chunks'][-1] -= 1
+            c.pop('dtype', None)
+            yield c
+        # event_rate: argument representations; thousands of events over a long span starting beyond 2^31
+        for i in range(150 if quick else 1500):
+            size, step = rng.choice([(20, 20), (20, 5), (10, 10), (16, 4), (5, 7), (1, 1), (7, 3)])
+            n = rng.randint(1, 150)
+            parts = rng.chunks(n, 8)
+            if rng.random() < 0.3:
+                parts.insert(rng.randint(0, len(parts)), 0)
+            ev = sorted(rng.randrange(n) for _ in range(rng.randint(0, n // 3 + 1)))
+            yield {'kind': 'event_rate', 'p1': size, 'p2': step, 's0': rng.choice([0, 3, 100, 2 ** 31 - 40, 2 ** 40]), 'chunks': parts,
+                   'events': ev, 'evorder': rng.choice([None, None, 'rev', 'split']),
+                   'rep': {'erate': rng.choice(REP_OPTIONS['erate'])} if rng.random() < 0.8 else {'spell': 'kw'}}
+        for size, step, n, nev in [(1000, 500, 2 ** 17, 5000), (4096, 4096, 2 ** 16, 3000), (7, 3, 3000, 1500)][:3 if quick else 3]:
+            parts = [k for k in self._mixed_chunks(rng, n, size) ]
+            ev = sorted(rng.randrange(n) for _ in range(nev))
+            yield {'kind': 'event_rate', 'p1': size, 'p2': step, 's0': rng.choice([2 ** 31 - 1000, 2 ** 40]), 'chunks': parts,
+                   'events': ev, 'evorder': rng.choice([None, 'rev', 'split'])}
 
     # ------------------------------------------------------------------ lines
+    @staticmethod
+    def _segments(c):
+        """the stream segments of a case: the case itself, then one stream per Ellipsis reset (blocked / discard)"""
+        segs = [{k: v for k, v in c.items() if k != 'segs'}]
+        for sg in c.get('segs') or []:
+            d = {k: v for k, v in c.items() if k != 'segs'}
+            d.update(sg)
+            segs.append(d)
+        return segs
+
     def model_lines(self, c):
+        if c['kind'] == 'dual':
+            return self.model_lines(c['a']) + self.model_lines(c['b'])
+        if c.get('segs'):
+            return [l for sg in self._segments(c) for l in self.model_lines(sg)]
         if c['kind'] == 'event_rate':
             lines = [f"new event_rate 1 1 {c['s0']} {c['p1']} {c['p2']}"]
             pos = c['s0']
@@ -401,7 +676,8 @@ class C12(Spec):
                     ok = k < look.ref.shape[-1] and a.dtype == bool and np.array_equal(col, look.ref[..., k])
                     cells.append(f"G{c['p1']}.{k}" if ok else '?')
                     continue
-                k = look.find(col)
+                e = state['emitted'] + j
+                k = look.find(col, e * c['p1'] if st == 'decimate' else e)
                 if k is None:
                     cells.append('?')
                 elif st in ('blocked', 'downsample', 'discard'):
@@ -428,9 +704,9 @@ class C12(Spec):
         else:
             s0 = str(int(o.s0)) if float(o.s0) == int(o.s0) else 's0?'
         # fs
-        if st in DIVIDED and o.fs == FS / c['p1']:
+        if st in DIVIDED and o.fs == fs_of(c) / c['p1']:
             fs = f"fs/{c['p1']}"
-        elif o.fs == FS:
+        elif o.fs == fs_of(c):
             fs = 'fs'
         else:
             fs = 'fs?'
@@ -452,51 +728,124 @@ class C12(Spec):
             mdt = 'md?'
         return f'{s0};{fs};{ch};{mdt};{n};{cellstr}'
 
-    def _impl_cont(self, c):
+    @staticmethod
+    def _snapshot(c, a):
+        """what the caller can observe of a chunk it sent (values and annotations)"""
+        snap = [str(a.dtype), a.shape, np.ascontiguousarray(a).tobytes()]
+        if hasattr(a, 'metadata'):
+            md = dict(a.metadata) if isinstance(a.metadata, dict) else a.metadata
+            if c['kind'] == 'auto_th' and not PENDING and isinstance(md, dict):
+                md.pop('auto_th', None)   # auto_th writes its threshold into the chunk it was given (unchanged library; reported)
+            snap += [repr(a.s0), repr(a.fs), repr(a.channel), repr(sorted(md.items())) if isinstance(md, dict) else repr(md)]
+        return snap
+
+    def _build_chunks(self, c):
         from psiaudio import pipeline as P
-        x = signal_of(c)
-        ref = reference(c, x)
-        look = Lookup(ref, exact=c['kind'] in ('blocked', 'downsample', 'discard', 'auto_th'))
+        x = lay_out(c, signal_of(c))
         annotated = c['arr'].startswith('pd')
         if annotated:
-            xs = P.PipelineData(x, FS, s0=c['s0'], channel=in_channel(c), metadata=dict(META))
+            s0 = np.int64(c['s0']) if rep_of(c).get('s0np') else c['s0']
+            xs = P.PipelineData(x, fs_of(c), s0=s0, channel=in_channel(c), metadata=dict(META))
         else:
             xs = x
-        out = []
-        lines = []
-        try:
-            co = make_stage(c, out.append)
-            lines.append('ok')
-        except Exception as e:
-            return [f'err {type(e).__name__}'] + ['err Dead'] * len(c['chunks'])
-        state = {'emitted': 0}
-        pos, shift, dead = 0, 0, False
+        chunks, pos, shift = [], 0, 0
         gaps = c.get('gaps') or [0] * len(c['chunks'])
         for k, g in zip(c['chunks'], gaps):
-            if dead:
-                lines.append('err Dead')
-                continue
             chunk = xs[..., pos:pos + k]
             shift += g
             if annotated and shift:
                 chunk.s0 = chunk.s0 + shift
+            if rep_of(c).get('layout') == 'copy':
+                chunk = chunk.copy()
             pos += k
-            n0 = len(out)
-            try:
-                with warnings.catch_warnings():
-                    warnings.simplefilter('ignore')
-                    co.send(chunk)
-            except StopIteration:
-                lines.append('err Dead')
-                dead = True
-                continue
-            except Exception as e:
-                lines.append(f'err {type(e).__name__}')
-                dead = True
-                continue
-            blocks = out[n0:]
-            lines.append('ok ' + ('|'.join(self._fmt_block(c, o, look, state) for o in blocks) if blocks else '-'))
+            chunks.append(chunk)
+        return chunks
+
+    def _run_cont(self, c, shared=None):
+        """generator: one `None` per chunk sent, finally the list of lines.  `shared`: chunk objects that another stage
+        receives as well (dual cases)."""
+        out = []
+        lines = []
+        segs = self._segments(c)
+        try:
+            co = make_stage(c, out.append, cb_log=[])
+            lines.append('ok')
+        except Exception as e:
+            yield [f'err {type(e).__name__}'] + ['err Dead'] * (sum(1 + len(sg['chunks']) for sg in segs) - 1)
+            return
+        dead = False
+        for si, sg in enumerate(segs):
+            if si:
+                # restart signal of blocked / discard: forwarded to the target, then a new stream begins
+                n0 = len(out)
+                try:
+                    if not dead:
+                        co.send(Ellipsis)
+                    lines.append('err Dead' if dead else ('ok' if len(out) == n0 + 1 and out[-1] is Ellipsis else 'err ResetNotForwarded'))
+                except Exception as e:
+                    lines.append(f'err {type(e).__name__}')
+                    dead = True
+            ref = reference(sg, signal_of(sg))
+            look = Lookup(ref, exact=sg['kind'] in ('blocked', 'downsample', 'discard', 'auto_th'))
+            state = {'emitted': 0}
+            chunks = shared if shared is not None else self._build_chunks(sg)
+            for chunk in chunks:
+                if dead:
+                    lines.append('err Dead')
+                    yield None
+                    continue
+                n0 = len(out)
+                snap = self._snapshot(sg, chunk)
+                try:
+                    with warnings.catch_warnings():
+                        warnings.simplefilter('ignore')
+                        co.send(chunk)
+                except StopIteration:
+                    lines.append('err Dead')
+                    dead = True
+                    yield None
+                    continue
+                except Exception as e:
+                    lines.append(f'err {type(e).__name__}')
+                    dead = True
+                    yield None
+                    continue
+                blocks = out[n0:]
+                line = 'ok ' + ('|'.join(self._fmt_block(sg, o, look, state) for o in blocks) if blocks else '-')
+                if self._snapshot(sg, chunk) != snap:
+                    line += ' ARG-MODIFIED'
+                lines.append(line)
+                if c.get('scrout'):
+                    # the consumer works in place on what it received
+                    for o in blocks:
+                        if isinstance(o, np.ndarray) and o.flags.writeable and o.size:
+                            o[...] = 1 if o.dtype == bool else 77
+                        if hasattr(o, 'metadata') and isinstance(o.metadata, dict):
+                            o.metadata['scribbled'] = 1
+                            if isinstance(o.channel, list):
+                                o.channel[:] = ['zz'] * len(o.channel)
+                            o.s0, o.fs = -5, 1.0
+                if c.get('scrin') and shared is None and chunk.flags.writeable:
+                    # (VERIF_PENDING only) the caller re-uses its buffer
+                    chunk[...] = 1 if chunk.dtype == bool else 55
+                yield None
+        yield lines
+
+    def _impl_cont(self, c):
+        *_, lines = self._run_cont(c)
         return lines
+
+    def _impl_dual(self, c):
+        a, b = c['a'], c['b']
+        chunks = self._build_chunks(a)
+        ga, gb = self._run_cont(a, chunks), self._run_cont(b, chunks)
+        ra = rb = None
+        while ra is None or rb is None:              # chunk i to stage A, chunk i to stage B, chunk i+1 to A, ...
+            if ra is None:
+                ra = next(ga)
+            if rb is None:
+                rb = next(gb)
+        return ra + rb
 
     def _impl_events(self, c):
         from psiaudio import pipeline as P
@@ -522,7 +871,10 @@ class C12(Spec):
                 evs = evs[0::2] + evs[1::2]
             n0 = len(out)
             try:
-                co.send(P.Events([('e', s) for s in evs], int(a), int(b), fs_in))
+                if rep_of(c).get('erate') == 'npargs':
+                    co.send(P.Events([('e', np.int64(s)) for s in evs], np.int64(a), np.int64(b), int(fs_in) if fs_in == int(fs_in) else fs_in))
+                else:
+                    co.send(P.Events([('e', s) for s in evs], int(a), int(b), fs_in))
             except StopIteration:
                 lines.append('err Dead')
                 dead = True
@@ -551,6 +903,8 @@ class C12(Spec):
         return lines
 
     def impl_lines(self, c):
+        if c['kind'] == 'dual':
+            return self._impl_dual(c)
         if c['kind'] == 'event_rate':
             return self._impl_events(c)
         return self._impl_cont(c)
@@ -603,9 +957,32 @@ class C12(Spec):
     def oracle(self, c, out):
         if out and out[0].startswith('HARNESS-EXC'):
             return out[0]
+        if c['kind'] == 'dual':
+            na = len(self.model_lines(c['a']))
+            for name, sub, o in (('A', c['a'], out[:na]), ('B', c['b'], out[na:])):
+                f = self.oracle(sub, o)
+                if f is not None:
+                    return (f'two stages fed the same chunk objects alternately (A = {self.describe(c["a"])}; '
+                            f'B = {self.describe(c["b"])}), stage {name}: {f}')
+            return None
+        for l in out:
+            if 'ARG-MODIFIED' in l:
+                return f'{c["kind"]}: the stage modified the chunk it was sent (values or annotations): {l[:160]}'
+        pos = 0
+        for i, sg in enumerate(self._segments(c)):
+            n = 1 + len(sg['chunks'])
+            f = self._oracle_stream(sg, out[pos:pos + n])
+            if f is not None:
+                return (f'after {i} restart signal(s) (Ellipsis): ' if i else '') + f
+            pos += n
+        return None
+
+    def _oracle_stream(self, c, out):
         if not self._wellformed(c):
             return None
         st = c['kind']
+        if out[0] != 'ok':
+            return f'{st}: construction / restart failed ({out[0]})'
         blocks = []
         for i, line in enumerate(out[1:]):
             bs = parse_out(line)
@@ -656,7 +1033,14 @@ class C12(Spec):
         return None
 
     def nontrivial(self, c, out):
+        if c['kind'] == 'dual':
+            return True
         return len(c['chunks']) >= 2 and any(l.startswith('ok ') and l != 'ok -' for l in out[1:])
+
+    def kind(self, c):
+        if c['kind'] == 'dual':
+            return 'dual'
+        return c['kind'] + ('+reset' if c.get('segs') else '')
 
     def known(self, c, failure):
         # No recorded finding is left for C12: the former C12-lfilter-empty-chunk (iirfilter / decimate adopting
@@ -666,6 +1050,14 @@ class C12(Spec):
 
     # ------------------------------------------------------------------ search
     def neighbours(self, c, rng):
+        if c['kind'] == 'dual':
+            yield c['a']
+            yield c['b']
+            return
+        if c.get('segs'):
+            for sg in self._segments(c):
+                yield sg
+            return
         n = sum(c['chunks'])
         for _ in range(40):
             d = dict(c)
@@ -688,6 +1080,33 @@ class C12(Spec):
                 yield d
 
     def shrink_candidates(self, c):
+        if c['kind'] == 'dual':
+            yield c['a']
+            yield c['b']
+            for sa in self.shrink_candidates(c['a']):
+                sb = dict(c['b'])
+                sb.update({k: sa[k] for k in ('arr', 'N', 'chunks', 's0', 'seed') if k in sa})
+                for k in ('rep', 'gaps', 'dtype', 'lab'):
+                    sb.pop(k, None)
+                    if k in sa:
+                        sb[k] = sa[k]
+                if c['b'].get('rep'):
+                    sb['rep'] = dict(sa.get('rep') or {}, **{k: v for k, v in c['b']['rep'].items() if k in ('ath', 'pnp', 'spell')})
+                yield {'kind': 'dual', 'a': sa, 'b': sb}
+            return
+        if c.get('segs'):
+            segs = self._segments(c)
+            for sg in segs:
+                yield sg
+            if len(c['segs']) > 1:
+                for i in range(len(c['segs'])):
+                    yield dict(c, segs=c['segs'][:i] + c['segs'][i + 1:])
+        if c.get('rep'):
+            for k in c['rep']:
+                yield dict(c, rep={a: b for a, b in c['rep'].items() if a != k})
+        for k in ('scrout', 'scrin'):
+            if c.get(k):
+                yield {a: b for a, b in c.items() if a != k}
         ch = c['chunks']
         ev = c['kind'] == 'event_rate'
 
@@ -729,6 +1148,12 @@ class C12(Spec):
                 yield mk(ch, seed=c['seed'] % 2)
 
     def describe(self, c):
+        if c['kind'] == 'dual':
+            return 'dual: A = ' + self.describe(c['a']) + ' ; B = ' + self.describe(c['b'])
+        extra = ''.join(f' {k}={c[k]}' for k in ('rep', 'scrout', 'scrin', 'segs', 'dtype') if c.get(k))
+        return self._describe(c) + extra
+
+    def _describe(self, c):
         if c['kind'] == 'event_rate':
             return (f"event_rate(block_size={c['p1']}, block_step={c['p2']}) start={c['s0']} spans={c['chunks']} "
                     f"events={c['events']}" + (f" order={c['evorder']}" if c.get('evorder') else '')
